@@ -640,3 +640,189 @@ fn verif_loom_task_drop_vs_locked_map() {
     });
     std::println!("VERIF_LOOM scenario={raw_out} executions={}", states.load(core::sync::atomic::Ordering::Relaxed));
 }
+
+// ------------------------------------------------------------------------------------------
+// An application thread using a stream ‖ the connection task handling the peer's frames for it
+// ------------------------------------------------------------------------------------------
+
+/// The writer side of a *real* stream (made by the task from the peer's `Connect`, so that it
+/// is wired to the task's own queues) is used on one thread - `w` = one `poll_write` of one
+/// byte, `s` = `poll_shutdown` - while another thread hands the task the peer's frames for that
+/// flow through its frame handler: `a<n>` = `Acknowledge(n)`, `r` = `Reset`, `f` = `Finish`,
+/// `p` = `Push` of one byte. Unlike `verif_loom_writer_vs_task`, the credit and the close reach
+/// the stream through the flow map and its lock, as they do in a running connection.
+///
+/// Scenario `VERIF_LOOM_SCENARIO=frames,<initial credit>,<writer ops>,<frames joined by +>`.
+///  * what is on the wire afterwards is exactly one `Push` per successful write, never more
+///    than initial credit + acknowledgements, and at most one `Finish`;
+///  * the credit left equals initial + acknowledged - written while the flow exists;
+///  * a writer whose last `poll_write` was Pending has been woken if credit is available or
+///    the peer has reset the flow; after the peer's `Reset` a write fails, it does not wait;
+///  * the reader gets the peer's bytes in order and then end-of-stream after `Finish`.
+#[test]
+fn verif_loom_stream_vs_frames() {
+    use crate::frame::{Frame, OpCode};
+    use core::pin::Pin;
+    use tokio::io::{AsyncRead, AsyncWrite};
+    let raw = std::env::var("VERIF_LOOM_SCENARIO").unwrap_or_else(|_| String::from("frames,1,ww,a1"));
+    let mut it = raw.split(',');
+    let _ = it.next();
+    let credit: u32 = it.next().and_then(|s| s.parse().ok()).unwrap_or(1);
+    let wops: Vec<char> = it.next().unwrap_or("w").chars().collect();
+    let fscript: Vec<String> = it.next().unwrap_or("").split('+').filter(|s| !s.is_empty()).map(String::from).collect();
+    let states = alloc::sync::Arc::new(core::sync::atomic::AtomicU64::new(0));
+    let st2 = states.clone();
+    let raw_out = raw.clone();
+    let mut b = loom::model::Builder::new();
+    if let Ok(p) = std::env::var("VERIF_LOOM_PREEMPTION_BOUND") {
+        b.preemption_bound = p.parse().ok();
+    }
+    b.check(move || {
+        st2.fetch_add(1, core::sync::atomic::Ordering::Relaxed);
+        let rng = ScriptRng(alloc::collections::VecDeque::new(), 0);
+        let (mux, taskdata) = crate::Multiplexor::new_detailed::<NoWs, NoClock>(
+            NoWs,
+            crate::config::Options::new().bind_buffer_size(4),
+            rng,
+        );
+        let crate::task::TaskData { task, mut tx_msg_rx, dropped_flows_rx } = taskdata;
+        loom::future::block_on(task.verif_process_frame(Frame::new_connect(b"h", 80, 1, credit)))
+            .expect("the task failed on `Connect`");
+        let mut s = mux
+            .con_recv_stream_rx
+            .try_lock()
+            .expect("accept queue locked")
+            .try_recv()
+            .expect("the peer's Connect produced no stream");
+        while tx_msg_rx.try_recv().is_ok() {}
+        let task = alloc::sync::Arc::new(task);
+        let task2 = task.clone();
+        let fs = fscript.clone();
+        let t = loom::thread::spawn(move || {
+            for f in &fs {
+                let frame = match f.as_str() {
+                    "r" => Frame::new_reset(1),
+                    "f" => Frame::new_finish(1),
+                    "p" => Frame::new_push_owned(1, Bytes::from_static(b"y")),
+                    a => Frame::new_acknowledge(1, a[1..].parse().expect("bad frame script")),
+                };
+                loom::future::block_on(task2.verif_process_frame(frame)).expect("the task failed on a frame of the script");
+            }
+        });
+        let cw = alloc::sync::Arc::new(CountWaker(loom::sync::atomic::AtomicUsize::new(0)));
+        let waker = core::task::Waker::from(cw.clone());
+        let mut cx = Context::from_waker(&waker);
+        let mut written = 0u32;
+        let mut last_pending = false;
+        let mut wakes_before_last = 0;
+        let mut shut = false;
+        for op in &wops {
+            match op {
+                's' => {
+                    let r = Pin::new(&mut s).poll_shutdown(&mut cx);
+                    assert!(matches!(r, Poll::Ready(Ok(()))), "[{raw}] FRAMES: poll_shutdown returned {r:?}");
+                    shut = true;
+                    last_pending = false;
+                }
+                _ => {
+                    wakes_before_last = cw.0.load(Ordering::SeqCst);
+                    match Pin::new(&mut s).poll_write(&mut cx, b"x") {
+                        Poll::Ready(Ok(n)) => {
+                            assert_eq!(n, 1, "[{raw}] FRAMES: a one-byte write reported {n} bytes");
+                            assert!(!shut, "[{raw}] CLOSED: a write succeeded after this side's shutdown");
+                            written += 1;
+                            last_pending = false;
+                        }
+                        Poll::Ready(Err(_)) => last_pending = false,
+                        Poll::Pending => last_pending = true,
+                    }
+                }
+            }
+        }
+        t.join().unwrap();
+        let grants: u32 = fscript.iter().filter(|f| f.starts_with('a')).map(|f| f[1..].parse::<u32>().unwrap()).sum();
+        let reset = fscript.iter().any(|f| f == "r");
+        let (mut pushes, mut finishes, mut resets) = (0u32, 0u32, 0u32);
+        while let Ok(msg) = tx_msg_rx.try_recv() {
+            let crate::ws::Message::Binary(bytes) = msg else { panic!("[{raw}] FRAMES: unexpected message queued") };
+            let frame = Frame::try_from(bytes).expect("undecodable frame queued");
+            assert_eq!(frame.id, 1, "[{raw}] FRAMES: frame for another flow queued");
+            match frame.opcode() {
+                OpCode::Push => pushes += 1,
+                OpCode::Finish => finishes += 1,
+                OpCode::Reset => resets += 1,
+                other => panic!("[{raw}] FRAMES: unexpected frame queued: {other:?}"),
+            }
+        }
+        assert_eq!(pushes, written, "[{raw}] CONSERVATION: {written} writes succeeded, {pushes} Push frames were queued");
+        assert!(pushes <= credit + grants, "[{raw}] CREDIT: {pushes} frames sent with only {credit} + {grants} units of credit");
+        assert!(finishes <= 1, "[{raw}] FRAMES: {finishes} Finish frames queued");
+        // frames the peer sends after its own Reset name a flow that no longer exists: each is answered with Reset
+        let after_reset = fscript.iter().skip_while(|f| *f != "r").skip(1).filter(|f| *f != "r").count() as u32;
+        assert!(resets <= after_reset, "[{raw}] FRAMES: {resets} Reset frames queued, the peer sent {after_reset} frames for a flow it had reset");
+        if shut && !reset {
+            assert_eq!(finishes, 1, "[{raw}] FRAMES: this side shut down and {finishes} Finish frames were queued");
+        }
+        let left = match mux.flows.read().get(&1) {
+            Some(crate::FlowSlot::Established(d)) => Some(d.psh_send_remaining.load(Ordering::SeqCst)),
+            Some(_) => panic!("[{raw}] FRAMES: the established flow turned into a request"),
+            None => None,
+        };
+        if let Some(left) = left {
+            assert!(!reset, "[{raw}] CLOSED: the peer's Reset was handled and the flow is still in the map");
+            assert_eq!(left, credit + grants - written, "[{raw}] CONSERVATION: final credit {left}, expected {credit} + {grants} - {written}");
+        } else {
+            assert!(reset, "[{raw}] FRAMES: the flow vanished from the map without a Reset");
+        }
+        if last_pending && (reset || left.is_some_and(|l| l > 0)) {
+            let wakes = cw.0.load(Ordering::SeqCst);
+            assert!(
+                wakes > wakes_before_last,
+                "[{raw}] LOST WAKEUP: the writer's last poll_write returned Pending, credit left = {left:?}, reset = {reset}, and its waker was never invoked afterwards"
+            );
+        }
+        // everything has completed: a write now must fail after a Reset or a shutdown, succeed
+        // if credit is left, and wait otherwise
+        let r = Pin::new(&mut s).poll_write(&mut cx, b"x");
+        match (&r, reset || shut, left) {
+            (Poll::Ready(Err(_)), true, _) => {}
+            (Poll::Ready(Ok(1)), false, Some(l)) if l > 0 => {}
+            (Poll::Pending, false, Some(0)) => {}
+            _ => panic!("[{raw}] PROGRESS: after everything completed a write returned {r:?} (reset = {reset}, shut down = {shut}, credit left = {left:?})"),
+        }
+        // the reading side: the peer's bytes, then end-of-stream once it has finished or reset
+        let sent_by_peer = fscript.iter().take_while(|f| *f != "r").filter(|f| *f == "p").count();
+        let ended = fscript.iter().any(|f| f == "f" || f == "r");
+        let mut got = 0usize;
+        loop {
+            let mut buf = [0u8; 8];
+            let mut rb = tokio::io::ReadBuf::new(&mut buf);
+            match Pin::new(&mut s).poll_read(&mut cx, &mut rb) {
+                Poll::Ready(Ok(())) if rb.filled().is_empty() => {
+                    assert!(ended, "[{raw}] CLOSED: end-of-stream although the peer neither finished nor reset");
+                    break;
+                }
+                Poll::Ready(Ok(())) => {
+                    assert!(rb.filled().iter().all(|b| *b == b'y'), "[{raw}] FRAMES: bytes read are not the peer's");
+                    got += rb.filled().len();
+                }
+                Poll::Ready(Err(_)) => {
+                    assert!(reset, "[{raw}] CLOSED: read error without a Reset");
+                    break;
+                }
+                Poll::Pending => {
+                    assert!(!ended, "[{raw}] PROGRESS: the peer has ended the flow and the reader is told to wait");
+                    break;
+                }
+            }
+        }
+        if !reset {
+            assert_eq!(got, sent_by_peer, "[{raw}] CONSERVATION: the peer sent {sent_by_peer} bytes, {got} were read");
+        } else {
+            assert!(got <= sent_by_peer, "[{raw}] CONSERVATION: the peer sent {sent_by_peer} bytes before its Reset, {got} were read");
+        }
+        drop(s);
+        drop((tx_msg_rx, dropped_flows_rx));
+    });
+    std::println!("VERIF_LOOM scenario={raw_out} executions={}", states.load(core::sync::atomic::Ordering::Relaxed));
+}
